@@ -102,7 +102,7 @@ var inflightWitness = map[string]string{"samples": "string", "metrics": "timesta
 type inflightStats struct{ requests, duringFlight, blocks, violations int }
 
 // judgeInflight: the oracle of the stream, on the events of one run. Returns what it counted.
-func judgeInflight(r *h.Result, sc *scenario, res *scenResult) inflightStats {
+func judgeInflight(r *h.Result, sc *scenario, res *scenResult, judgeOpen bool) inflightStats {
 	var st inflightStats
 	wcol := inflightWitness[sc.Kind]
 	type blkInfo struct {
@@ -222,6 +222,9 @@ func judgeInflight(r *h.Result, sc *scenario, res *scenResult) inflightStats {
 			continue
 		}
 		b := blks[blk]
+		if !answered && !judgeOpen {
+			continue
+		}
 		if !answered {
 			st.violations++
 			r.Violate("C01/request-never-answered",
@@ -277,13 +280,26 @@ func c02Inflight(r *h.Result, rng *h.Rng, n int, rep *scenario) error {
 	}
 	var ops, impl, aops, aimpl []string
 	var cases, acases []any
+	confirmations := 0
 	for i, res := range results {
 		sc := scs[i]
 		if res.err != nil && !res.timedOut {
 			return fmt.Errorf("inflight scenario %d: %v", i, res.err)
 		}
 		neverAnswered := func(x *scenResult) bool { return len(x.hung) > 0 || (x.err != nil && x.timedOut) }
+		confirmedHang := false
+		if neverAnswered(res) && confirmations >= 3 {
+			// three op sequences have already been confirmed alone in this run: the verdict of the stream is in, a
+			// further one would only cost its 10× deadline; this run is judged on everything but the open promises
+			r.Count("inflight:clock-verdict-not-re-examined")
+			if res.err != nil {
+				continue
+			}
+			res.hung = nil
+		}
 		if neverAnswered(res) {
+			confirmations++
+			confirmedHang = true
 			// clock-based (a deadline / the grace for open promises passed): the op sequence alone, 10× the time, decides
 			c0102Confirm(func(scale int) bool {
 				cp := *sc
@@ -305,7 +321,7 @@ func c02Inflight(r *h.Result, rng *h.Rng, n int, rep *scenario) error {
 				c0102ConfirmScale, trunc(strings.Join(res.opsSoFar, ";"), 300)), map[string]any{"stream": "inflight", "scenario": sc, "ops_played": res.opsSoFar})
 			continue
 		}
-		st := judgeInflight(r, sc, res)
+		st := judgeInflight(r, sc, res, confirmedHang)
 		r.Case(fmt.Sprintf("inflight:%s:%s", sc.Kind, res.implOut), st.duringFlight > 0 && st.blocks >= 2)
 		r.CountN("inflight:requests", st.requests)
 		r.CountN("inflight:requests-issued-while-insert-in-flight", st.duringFlight)
@@ -328,4 +344,58 @@ func c02Inflight(r *h.Result, rng *h.Rng, n int, rep *scenario) error {
 		return err
 	}
 	return r.Compare("inflight-heap", aops, aimpl, acases)
+}
+
+// c02AliasLine: the run as a line of the heap model (driver op c02alias, one sub-service, configured from
+// Gen.BatcherAlias): the ops of sub-service 0 with "b" (insertBegin) where the flusher entered client.Do and, per
+// request, whether append(svc.results, p) reallocated (observed on the real slice: len == cap before the call).
+func c02AliasLine(sc *scenario, res *scenResult) (line, out string, ok bool) {
+	if sc.SvcNum != 1 || res.err != nil {
+		return "", "", false
+	}
+	begins := map[int]int{}
+	for _, p := range res.beginPos {
+		begins[p]++
+	}
+	var ops []string
+	flush := func(pos int) {
+		for k := 0; k < begins[pos]; k++ {
+			ops = append(ops, "b")
+		}
+	}
+	flush(0)
+	for i, op := range res.opsSoFar {
+		f := strings.Split(op, ":")
+		switch f[0] {
+		case "q": // q:mode:pick:id:ptype:size:arrays:scalars
+			if len(f) != 8 || f[1] != "sync" {
+				return "", "", false
+			}
+			id := 0
+			fmt.Sscanf(f[3], "%d", &id)
+			ops = append(ops, fmt.Sprintf("q:%s:%s:%s:%s:%s:%s", f[3], f[4], f[5], f[6], f[7], b01(res.growOf[id])))
+		case "t", "w", "s":
+			if f[1] == "0" {
+				ops = append(ops, f[0])
+			}
+		case "c", "d", "p":
+			if f[1] == "0" {
+				ops = append(ops, f[0]+":"+f[2])
+			}
+		case "f":
+			ops = append(ops, "t")
+		default:
+			return "", "", false
+		}
+		flush(i + 1)
+	}
+	hash := strings.LastIndex(res.implOut, "#")
+	if hash < 0 {
+		return "", "", false
+	}
+	state := res.implOut[hash+1:]
+	if state != "crashed" {
+		state = strings.Split(state, ";")[0]
+	}
+	return fmt.Sprintf("c02alias %s %d %s", sc.Kind, sc.MaxQueue, strings.Join(ops, ";")), res.implOut[:hash] + "#" + state, true
 }
